@@ -26,6 +26,7 @@ RULE = (
     "parentheses between them, or a ternary, or a primitive with >= 3 inputs, or a blackbox, or use "
     "before definition; every rejection case. Distinct by digest."
 )
+RULE += ' Added after seeded-change rounds 4-5: other generated netlists parsed earlier in the same process (result must not depend on them); an extra port that names an internal net must be rejected like an undeclared one.'
 ASSUMPTIONS = [
     "AST evaluator cgv.vlog (Verilog operator semantics and precedence table) and reference simulator cgv.refsim",
     "grammar limits that define the subset: a unary operator applies to an identifier, constant or parenthesised expression; ?: only at the top of an expression",
